@@ -40,6 +40,9 @@ use crate::node::Node;
 
 #[derive(Clone, Debug, PartialEq)]
 pub enum Relayed {
+    /// `set_chain_point(point)` (= start of a new streamer): `found` = the intersection was found;
+    /// `agency` = false when the client was in MustReply and find_intersect was skipped
+    SetPoint { slot: u64, found: bool, agency: bool },
     Forward { number: u64, slot: u64 },
     /// `number` = block number of the roll-back point (None = origin)
     Backward { slot: u64, number: Option<u64> },
@@ -54,10 +57,9 @@ pub struct ReaderLog {
     pub intersect_found: u64,
     pub intersect_not_found: u64,
     pub set_point_without_agency: u64,
-    /// everything relayed since the harness last cleared it (i.e. during the current import)
+    /// every call / everything relayed since the harness last cleared it (i.e. during the current
+    /// import), in order
     pub relayed: Vec<Relayed>,
-    /// points asked by `set_chain_point` since the last clear: (slot, found)
-    pub asked: Vec<(u64, bool)>,
     pub mid_import_reorgs_applied: u64,
 }
 
@@ -124,6 +126,7 @@ impl ChainBlockReader for ModelChainReader {
         if conn.must_reply {
             // no agency: PallasChainReader skips find_intersect
             log.set_point_without_agency += 1;
+            log.relayed.push(Relayed::SetPoint { slot: *point.slot_number, found: false, agency: false });
             return Ok(());
         }
         let node = node.lock().unwrap();
@@ -133,12 +136,12 @@ impl ChainBlockReader for ModelChainReader {
                 conn.point = p;
                 conn.pending_rollback = true;
                 log.intersect_found += 1;
-                log.asked.push((*point.slot_number, true));
+                log.relayed.push(Relayed::SetPoint { slot: *point.slot_number, found: true, agency: true });
             }
             None => {
                 // IntersectNotFound: follower unchanged, the miss is swallowed by the real reader
                 log.intersect_not_found += 1;
-                log.asked.push((*point.slot_number, false));
+                log.relayed.push(Relayed::SetPoint { slot: *point.slot_number, found: false, agency: true });
             }
         }
         Ok(())
@@ -222,5 +225,73 @@ impl ChainBlockReader for ModelChainReader {
                 Ok(None)
             }
         }
+    }
+}
+
+/// Conformance of the model with the behaviour the repo's own `pallas_chain_reader` tests record
+/// for the real reader against a scripted chain-sync server:
+///  * `get_next_chain_block_rolls_backward`: after a found intersection the next action is
+///    `RollBackward(that point)`;
+///  * `get_next_chain_block_rolls_forward`: then blocks are rolled forward;
+///  * `get_next_chain_block_has_no_agency`: after an await reply `set_chain_point` is harmless (no
+///    intersection is looked for) and the next action is the server's next instruction (a
+///    `RollForward` of the new block, NOT a `RollBackward` to the point just given);
+///  * `cached_client_is_dropped_when_get_next_chain_block_times_out`: nothing new while awaiting =>
+///    error, and the client is dropped (the next call works on a new connection, whose first
+///    instruction is a roll-back to the intersection / origin).
+pub async fn self_check() -> Result<(), String> {
+    use crate::node::ChainProfile;
+    use rand_core::SeedableRng;
+    let mut rng = ChaCha20Rng::from_seed([7u8; 32]);
+    let mut n = Node::new(ChainProfile { sparse_numbers: false, empty_block_pct: 0, drought_toggle_pct: 0, first_number: Some(1) });
+    n.forward(3, &mut rng);
+    let p = |n: &Node, pos: usize| RawCardanoPoint::new(SlotNumber(n.at(pos).slot), n.at(pos).hash.to_vec());
+    let (p1, p2) = (p(&n, 0), p(&n, 1));
+    let node = Arc::new(Mutex::new(n));
+    let mut r = ModelChainReader::new(node.clone(), Arc::new(Mutex::new(ReaderLog::default())), Arc::new(Mutex::new(None)));
+    let e = |s: &str| Err(format!("chain-sync model self-check failed: {s}"));
+    r.set_chain_point(&p2).await.map_err(|e| e.to_string())?;
+    match r.get_next_chain_block().await {
+        Ok(Some(ChainBlockNextAction::RollBackward { rollback_point })) if rollback_point == p2 => {}
+        _ => return e("expected RollBackward(intersection)"),
+    }
+    match r.get_next_chain_block().await {
+        Ok(Some(ChainBlockNextAction::RollForward { parsed_block })) if *parsed_block.block_number == 3 => {}
+        _ => return e("expected RollForward(block 3)"),
+    }
+    if !matches!(r.get_next_chain_block().await, Ok(None)) {
+        return e("expected await at the tip");
+    }
+    // no agency: harmless set_chain_point, then the server's next instruction
+    r.set_chain_point(&p1).await.map_err(|e| e.to_string())?;
+    node.lock().unwrap().forward(1, &mut rng);
+    match r.get_next_chain_block().await {
+        Ok(Some(ChainBlockNextAction::RollForward { parsed_block })) if *parsed_block.block_number == 4 => {}
+        _ => return e("expected RollForward(block 4) after an await reply"),
+    }
+    if !matches!(r.get_next_chain_block().await, Ok(None)) {
+        return e("expected await at the tip (2)");
+    }
+    if r.get_next_chain_block().await.is_ok() {
+        return e("expected a time-out error while awaiting with nothing new");
+    }
+    // new connection: unknown point => swallowed, first instruction = roll back to origin
+    r.set_chain_point(&RawCardanoPoint::new(SlotNumber(999_999), vec![1u8; 32])).await.map_err(|e| e.to_string())?;
+    match r.get_next_chain_block().await {
+        Ok(Some(ChainBlockNextAction::RollBackward { rollback_point })) if rollback_point.is_origin() => {}
+        _ => return e("expected RollBackward(origin) on a new connection without intersection"),
+    }
+    // follower on an abandoned fork => roll back to the most recent common point
+    for _ in 0..4 {
+        let _ = r.get_next_chain_block().await;
+    }
+    {
+        let mut n = node.lock().unwrap();
+        n.roll_back(Some(1));
+        n.forward(3, &mut rng);
+    }
+    match r.get_next_chain_block().await {
+        Ok(Some(ChainBlockNextAction::RollBackward { rollback_point })) if rollback_point == p2 => Ok(()),
+        _ => e("expected RollBackward(common ancestor) after a fork switch"),
     }
 }
